@@ -14,6 +14,25 @@ TV = 'translation_validation'
 
 # id -> (category, text, design_ref, level_note, technique)
 CLAIMS = {
+    'C19': (MC,
+            'FdlThreads models fiddle\'s module-level state (thread-local build guard and tracking flag, the history '
+            'counter, the signature cache, the exception-proxy cache) with one action per access and TLC explores '
+            'every interleaving for every assignment of six programs to 2 (quick) and 3 (thorough) threads, checking '
+            'ResultsAsIfAlone, SeqUniqueAndIncreasing and GuardPerThread; the same model with global instead of '
+            'thread-local flags is a negative control that must fail. Real threads are then run under a '
+            'deterministic scheduler (sys.settrace; one thread at a time, a step per source line inside '
+            'fiddle/_src): every sampled single preemption point of every program pair, seeded random schedules and '
+            'random triples (bound-2 preemptions in the thorough tier). Each executed schedule yields a record '
+            '(result token per thread, sequence ids of its history entries, guard/tracking values observed per region '
+            'of its program) that is judged by Trace_C19 against the model\'s as-if-alone results and per-thread flag '
+            'locality.',
+            'DESIGN.md §5 C19',
+            'Trusted: TLC, the scheduler (one runnable thread at a time, schedule = sequence of thread ids; no wall '
+            'clock). Assumed: preemption at source-line granularity; bytecode-level preemption inside one line '
+            '(next(counter), dict operations) is atomic under the GIL. Label-level replay of TLC interleavings into '
+            'the code is not done; the binding is through observed results and observed flags.',
+            'TLA+ interleaving model checked by TLC with negative control; deterministic line-granular thread '
+            'scheduler; executed schedules judged by the specification'),
     'C04': (MC,
             'FdlPartial defines which objects are fresh (an ArgFactory or a container holding one) and constructs '
             'the joint result graph of a sequence of calls of the built callable, so that "fresh per call", "built '
